@@ -6,6 +6,7 @@ CONSTANTS
   MaxCalls = 3
   Retention = 4
   RemoteRetention = 3
+  Payloads <- Payloads1
   GCMode = "split"
 VIEW View
 PROPERTIES KeptUntilExpiry
